@@ -141,7 +141,14 @@ func (s *Server) Close() {
 		_ = s.conn.Close()
 	}
 	if s.Srv != nil {
-		s.Srv.Close()
+		// Close takes every table's lock: on a server a run has wedged (a request that never gave its lock back)
+		// it would never return. The wedged server is then abandoned; the run itself has been reported as stuck.
+		done := make(chan struct{})
+		go func() { s.Srv.Close(); close(done) }()
+		select {
+		case <-done:
+		case <-time.After(5 * time.Second):
+		}
 	}
 }
 
